@@ -675,7 +675,7 @@ fn gen_cases(seed: u64, thorough: bool) -> Vec<String> {
     let mut rng = Rng::new(seed);
     let mut out: Vec<String> = vec![];
     let maxc = if thorough { 32 } else { 4 };
-    let rounds = if thorough { 5 } else { 1 };
+    let rounds = if thorough { 12 } else { 1 };
     let modes = ["l", "d", "s", "a"];
     let phases = ["idle", "inline", "offr", "queue", "hooks"];
     let conns_of = |rng: &mut Rng| -> u64 { if rng.chance(1, 4) { maxc } else if rng.chance(1, 3) { 1 } else { rng.range(1, maxc) } };
